@@ -19,6 +19,18 @@ pub fn parse(
     header_span: diagn::Span)
     -> Result<AstDirectiveData, ()>
 {
+    if let Some(size) = elem_size
+    {
+        if size as u64 >= util::BIGINT_MAX_BITS
+        {
+            report.error_span(
+                "value is out of supported range",
+                header_span);
+
+            return Err(());
+        }
+    }
+
     let mut elems = Vec::new();
 
     loop
